@@ -89,10 +89,14 @@ Definition T_ehdr (f : string) : list (Z * string) := field_table ehdr_binds f.
 
 (* decoded e_machine, and the sh_type / p_type dictionaries it selects *)
 Definition exp_machine (s : image_spec) : hval := named (T_ehdr "e_machine") (e_machine (i_ehdr s)).
-Definition T_sh_type (s : image_spec) : list (Z * string) :=
-  table_of_id (table_id_for gen_sh_type_table_of_machine (machine_key (exp_machine s))).
-Definition T_p_type (s : image_spec) : list (Z * string) :=
-  table_of_id (table_id_for gen_p_type_table_of_machine (machine_key (exp_machine s))).
+(* the dictionary structs.py builds the sh_type / p_type Enum from, per decoded e_machine
+   (Spec/C01Machines.v states the rule these maps have to obey) *)
+Definition sh_dict (k : string) : list (Z * string) :=
+  table_of_id (table_id_for gen_sh_type_table_of_machine k).
+Definition p_dict (k : string) : list (Z * string) :=
+  table_of_id (table_id_for gen_p_type_table_of_machine k).
+Definition T_sh_type (s : image_spec) : list (Z * string) := sh_dict (machine_key (exp_machine s)).
+Definition T_p_type (s : image_spec) : list (Z * string) := p_dict (machine_key (exp_machine s)).
 
 (* ------------------------------------------------------------------ what the library must report *)
 Definition exp_ehdr (s : image_spec) : hrec :=
